@@ -15,7 +15,7 @@ from harness.engine import tlc as T
 
 SPEC = os.path.join(T.SPECS, "Switches")
 SWITCHES = ["-q", "--quiet", "-v", "-vv", "-vvv", "--ansi", "--no-ansi", "-n", "--no-interaction", "-h", "--help", "-V", "--version"]
-CMD_IDS = ["pkg", "srv", "srv add", "srv list", "top", "help"]
+CMD_IDS = ["pkg", "srv", "srv add", "srv list", "top", "grp", "grp one", "lazy", "help"]
 TAG = re.compile(r"\[T(\d)\]")
 _ENV = {}
 
@@ -29,6 +29,7 @@ class Rec(object):
 
     def reset(self):
         self.calls = []
+        self.built = 0  # how often the handler factory of `lazy` ran
         self.seen = {"ran": False, "quiet": False, "level": 0, "inter": True}
         self.answer = "none"
         self.args = []
@@ -114,6 +115,21 @@ def _env():
             k.set_description("Shows the top")
             k.add_argument("rest", multi, "More values")
             k.set_handler(Handler("top"))
+        with c.command("grp") as k:  # a container: no handler of its own
+            k.set_description("Groups commands")
+            with k.sub_command("one") as s:
+                s.set_description("The one command of the group")
+                s.add_argument("rest", multi, "More values")
+                s.set_handler(Handler("grp one"))
+        with c.command("lazy") as k:  # the handler is built on demand
+            k.set_description("Builds its handler late")
+            k.add_argument("rest", multi, "More values")
+
+            def factory():
+                REC.built += 1
+                return Handler("lazy")
+
+            k.set_handler(factory)
         return ConsoleApplication(c)
 
     def command(app, cid):
@@ -212,7 +228,7 @@ def observe(units, beh, kind, form="string"):
         "calls": list(REC.calls),
         "outTags": sorted({int(x) for x in TAG.findall(so)}), "errTags": sorted({int(x) for x in TAG.findall(se)}),
         "outEsc": esc_of(so), "errEsc": esc_of(se), "io": dict(REC.seen), "page": page, "answer": REC.answer,
-        "consumed": 0 if left == "n\n" else (1 if left == "" else 2), "args": list(REC.args),
+        "consumed": 0 if left == "n\n" else (1 if left == "" else 2), "args": list(REC.args), "built": REC.built,
         "outId": intern(so), "errId": intern(se),
     }
 
@@ -279,7 +295,7 @@ def U(k, *t):
 
 def rand_base(rng):
     """a valid line: command path, then the command's own arguments / options, maybe '--' and more values"""
-    cmd = rng.choice(["pkg", "pkg", "srv", "srv add", "srv list", "top", ""])
+    cmd = rng.choice(["pkg", "pkg", "srv", "srv add", "srv list", "top", "", "grp", "grp one", "lazy"])
     units = [U("name", n) for n in cmd.split(" ") if n]
     body = []
     if cmd == "pkg":
@@ -293,7 +309,7 @@ def rand_base(rng):
     elif cmd in ("srv", "srv list"):
         if rng.random() < 0.4:
             body.append(U("own", rng.choice(["-a", "--all"])))
-    if cmd and rng.random() < 0.4:
+    if cmd and cmd != "grp" and rng.random() < 0.4:
         body += [U("pos", rng.choice(["y", "z", "w"])) for _ in range(rng.randint(1, 2))]
     # positional values keep their order (the first one of pkg / srv add is the required argument); options move freely
     pos = [u for u in body if u["k"] == "pos"]
@@ -301,7 +317,7 @@ def rand_base(rng):
     for o in own:
         pos.insert(rng.randint(0, len(pos)), o)
     units += pos
-    if cmd and rng.random() < 0.45:
+    if cmd and cmd != "grp" and rng.random() < 0.45:
         units.append(U("dd", "--"))
         for _ in range(rng.choice([0, 0, 1, 2])):
             units.append(U("lit", rng.choice(["y", "z", "k"])))
@@ -370,6 +386,8 @@ def run(ctx):
         "--ansi together with --no-ansi, and --verbose[=n], are not claimed",
         "decoration is judged on styled text (tagged lines, help / version pages); COLUMNS=120",
         "a fresh application per run (state carried between runs is C17's subject)",
+        "'without invoking the command's handler': no handler method is called and the run does not depend on the command "
+        "having a handler; whether a handler factory is run is recorded (built) and compared with the model, not claimed",
     ]
     cols = os.environ.get("COLUMNS")
     os.environ["COLUMNS"] = "120"
